@@ -118,6 +118,13 @@ TEXT["C13"] = {
     "design_ref": "DESIGN.md section 3, C13",
 }
 
+TEXT["C08"] = {
+    "technique": "property-based testing (rapid); differential against a reference resolver that walks the typed value descriptor",
+    "text": "Random nested context values (string- and int-keyed maps, []any, typed slices, arrays by value and by pointer, structs by value / pointer / nil pointer with exported, unexported, embedded, pointer and any-typed fields, value- and pointer-receiver methods, variadic and error-returning methods, functions of every accepted signature shape) are combined with access paths generated by walking the descriptor - valid ones and ones with a wrong turn (missing key, unexported field, out-of-range / negative index through a variable, step on nil, step on a scalar, wrong arity or argument type, failing function, call of a non-function) - and observed through {{ p }}, {{ p|length }} and {% if p %}. A reference resolver over the descriptor predicts value / empty / execution error. Shadowing (tag bindings over context over globals) is checked on fixed templates and, more broadly, by C12.",
+    "note": "Trusted: the reference resolver c08Resolve and the value builder. Behaviours the property leaves open are discarded (listed in the evidence assumptions).",
+    "design_ref": "DESIGN.md section 3, C08",
+}
+
 PENDING_REASON = "check not built yet in this build phase (DESIGN.md section 3 describes the planned PBT check); will be claimed once its quick tier is silent on the unchanged tree and kills its mutants"
 
 
